@@ -233,6 +233,59 @@ func c07(c *Ctx) {
 					}
 				}
 			}
+			// the value marshalled is the marked message itself, not a partial copy
+			for _, mc := range astx.Calls(deferLit.Body, false) {
+				fn := astx.Callee(info, mc)
+				if fn == nil || fn.Name() != "Marshal" || len(mc.Args) != 1 {
+					continue
+				}
+				arg := ast.Unparen(mc.Args[0])
+				okSelf := false
+				if pc, isCall := arg.(*ast.CallExpr); isCall { // msg.ProtoMessage()
+					if se, isSel := ast.Unparen(pc.Fun).(*ast.SelectorExpr); isSel && se.Sel.Name == "ProtoMessage" {
+						if id, isID := ast.Unparen(se.X).(*ast.Ident); isID && astx.Obj(info, id) == msgParam {
+							okSelf = true
+						}
+					}
+				}
+				if id, isID := arg.(*ast.Ident); isID && astx.Obj(info, id) == msgParam {
+					okSelf = true
+				}
+				r.Check(okSelf, "C07.D2", name, "the marked message itself is re-encoded ("+astx.Str(mc.Fun)+")", c.P.Pos(mc.Pos()), "marshals msg / msg.ProtoMessage()",
+					"the entry written back is not the marked message itself but a copy built from some of its fields: fields such as the client message id are lost, so the duplicate marker does not advance after restart and the poisonous line is accepted again")
+			}
+			// the marker-prefixed bytes are what is stored: no later assignment replaces them by the un-prefixed bytes
+			for _, vv := range lg.Nodes() {
+				a2, isAs := vv.Node.(*ast.AssignStmt)
+				if !isAs || len(a2.Lhs) != 1 || len(a2.Rhs) != 1 {
+					continue
+				}
+				ap, isCall := ast.Unparen(a2.Rhs[0]).(*ast.CallExpr)
+				if !isCall || astx.Builtin(info, ap) != "append" || len(ap.Args) != 2 || !ap.Ellipsis.IsValid() {
+					continue
+				}
+				src, isID := ast.Unparen(ap.Args[1]).(*ast.Ident)
+				if !isID {
+					continue
+				}
+				if astx.Same(info, a2.Lhs[0], src) {
+					continue // data = append(prefix, data...): the variable itself now carries the prefix
+				}
+				// T = append(prefix, src...): a later T = src undoes it
+				undone := false
+				reachA := lg.Reach(vv.ID, nil, nil)
+				for _, w := range lg.Nodes() {
+					a3, ok := w.Node.(*ast.AssignStmt)
+					if !ok || w.ID == vv.ID || !reachA[w.ID] || len(a3.Lhs) != 1 || len(a3.Rhs) != 1 {
+						continue
+					}
+					if astx.Same(info, a3.Lhs[0], a2.Lhs[0]) && astx.Same(info, a3.Rhs[0], src) {
+						undone = true
+					}
+				}
+				r.Check(!undone, "C07.D2", name, "marker-prefixed bytes are not overwritten", c.P.Pos(a2.Pos()), "no later assignment of the un-prefixed bytes",
+					"the 'p'-prefixed encoding is assigned and then overwritten by the un-prefixed bytes: the marked entry is stored without its marker and cannot be decoded on replay")
+			}
 			r.Check(hasMsg && hasProto, "C07.D2", name, "re-encoding derives from the marked msg (protobuf)", c.P.Pos(as.Pos()), "data depends on msg.ProtoMessage()",
 				"the bytes stored back do not derive from the marked message via ProtoMessage()")
 			r.Check(hasMsg && hasJSON, "C07.D2", name, "re-encoding derives from the marked msg (legacy JSON)", c.P.Pos(as.Pos()), "data depends on json.Marshal(msg)",
